@@ -466,6 +466,8 @@ class JGen:
         self.r = r
         self.stmts = []
         self.n = 0
+        self.shared = []      # variables holding a finished value: every kind of value can be referenced again
+                              # (same object identity at several places / depths; DAGs, never cycles)
     def fresh(self):
         self.n += 1
         return "v%d" % self.n
@@ -488,6 +490,15 @@ class JGen:
                          "(function(){var n=new Number(5); n.toJSON=function(k){LOG.push(\"tj:\"+k);return \"five\"}; return n})()",
                          ])
     def value(self, depth):
+        r = self.r
+        if self.shared and r.random() < 0.22:
+            return r.choice(self.shared)
+        e = self.value0(depth)
+        if r.random() < 0.22:
+            v = self.fresh(); self.stmts.append("var %s=%s;" % (v, e)); self.shared.append(v)
+            return v
+        return e
+    def value0(self, depth):
         r = self.r
         k = r.random()
         if depth >= 4 or k < 0.3: return self.prim()
@@ -653,6 +664,29 @@ def gen_v(r):
             if len(text) < 80 and not any(0xD800 <= u <= 0xDFFF for u in units(text)): break
         else: text = "[1]"
     return "V " + hx("function mk(){ return [%s, %s]; }" % (js_str(text), r.choice(V_REVIVERS)))
+
+# every leaf kind referenced 2-3 times (same identity) at different depths, in arrays and objects,
+# with and without replacer / allow-list; only true ancestors are cycles
+SHARED_KINDS = [
+    "function(){}", "(()=>1)", "class{}", "Math.max", "new Proxy(function(){},{})", "Symbol(\"s\")", "Object(Symbol(\"w\"))",
+    "new Number(1)", "new String(\"s\")", "new Boolean(false)", "Object(1n)", "new Date(0)", "undefined",
+    "{toJSON(){LOG.push(\"tj\");return function(){}}}", "{toJSON(){return undefined}}", "{toJSON(){return Symbol()}}", "{toJSON(){return this}}",
+    "{toJSON(){return [this.q]},q:function(){}}", "{a:function(){},c:1}",
+    "new Proxy({a:1},{})", "new Proxy([1],{get(t,k,rc){LOG.push(\"get:\"+String(k));return Reflect.get(t,k,rc)}})",
+    "[]", "[1]", "{}", "{a:1}", "[function(){}]", "Object.create(null)", "/x/", "new Map()",
+]
+SHARED_SHAPES = ["[x,x]", "{a:x,c:x}", "[x,[x,{k:x}],x]", "{a:[x],c:{k:x,a:x}}", "[[x],[x]]"]
+SHARED_REPLACERS = ["undefined", "function(k,v){return v}", "[\"a\",\"c\",\"k\"]", "function(k,v){return typeof v===\"function\"?undefined:v}"]
+
+def shared_family():
+    out = []
+    for kind in SHARED_KINDS:
+        for shape in SHARED_SHAPES:
+            for rp in SHARED_REPLACERS:
+                for sp in ("undefined", "1"):
+                    if sp == "1" and rp != "undefined": continue
+                    out.append("JM " + hx("function mk(){ var x=%s; return [%s, %s, %s]; }" % (kind, shape, rp, sp)))
+    return out
 
 J_FIXED = [
     "function mk(){ return [{a:[],b:{},c:[[]],d:[{}]}, undefined, 2]; }",
@@ -880,8 +914,9 @@ def main(ctx):
         for g in r.sample(gaps_all, 2):
             SL.append("SL " + g + " %d " % n + " ".join(items + toks))
     S += SL
-    J = [l for l in corpus if l.startswith("J ") or l.startswith("JF ")]
+    J = [l for l in corpus if l.split(" ")[0] in ("J", "JF", "JM", "JFM")]
     for s in J_FIXED: J.append("JF " + hx(s))
+    J += shared_family()
     n_j = 1200 if quick else 15000
     for _ in range(n_j):
         J.append(JGen(r).case())
